@@ -58,11 +58,11 @@ impl Stdfs {
             return Err(PathError::Empty.into());
         }
 
-        // Expand home directory
-        let mut path_buf = sys::expand(path)?;
+        // Trim protocol prefix if needed, before expansion rebuilds the path and collapses its `//`
+        let mut path_buf = sys::trim_protocol(path);
 
-        // Trim protocol prefix if needed
-        path_buf = sys::trim_protocol(path_buf);
+        // Expand home directory
+        path_buf = sys::expand(path_buf)?;
 
         // Clean the resulting path
         path_buf = sys::clean(path_buf);
